@@ -492,3 +492,27 @@ func (s *Sim) TrackTicker(t *time.Ticker) {
 	s.tickers = append(s.tickers, t)
 	s.mu.Unlock()
 }
+
+// Lock / RLock replace X.Lock() / X.RLock() in the instrumented sources. Outside a simulation they
+// are the plain calls. Inside, a taken mutex means its holder is parked at a simulated operation (only
+// one goroutine runs at a time): blocking in the runtime would hide this goroutine from the scheduler
+// and keep the bubble from becoming quiescent, so it yields and tries again when it is chosen.
+func Lock(try func() bool, lock func()) {
+	if Active == nil {
+		lock()
+		return
+	}
+	for !try() {
+		Yield("mutex-wait")
+	}
+}
+
+func RLock(try func() bool, rlock func()) {
+	if Active == nil {
+		rlock()
+		return
+	}
+	for !try() {
+		Yield("mutex-wait")
+	}
+}
